@@ -168,11 +168,43 @@ func recvLimitRules(p *Prog, r *Report, rule string) {
 				rej = append(rej, e)
 			}
 		}
-		if len(rej) != 1 {
-			r.Bad(rule, f.Name+"/reject-return", f.Pos(), "ANCHOR-MISSING: expected exactly one `return nil, ErrTooLong`")
+		if len(rej) == 0 {
+			r.Bad(rule, f.Name+"/reject-return", f.Pos(), "ANCHOR-MISSING: no `return nil, ErrTooLong`")
 			continue
 		}
 		res := ComparePredAssumingNil(rej[0].In.Block(), dom, as, spec)
+		if len(rej) > 1 {
+			// several rejecting exits (one per reason): their union is compared
+			res = PredResult{OK: true}
+			got := map[string]bool{}
+			seenB := map[*ssa.BasicBlock]bool{}
+			for _, e := range rej {
+				if seenB[e.In.Block()] {
+					continue
+				}
+				seenB[e.In.Block()] = true
+				one := comparePredSetAssumingNil(e.In.Block(), dom, as)
+				if one.Undec != "" {
+					res.Undec = one.Undec
+				}
+				for k := range one.True {
+					got[k] = true
+				}
+				res.Disjunct++
+			}
+			want := ComparePredEnum(dom, spec)
+			res.Combos = len(ComparePredEnum(dom, func(map[string]int64) bool { return true }))
+			for k := range want {
+				if !got[k] {
+					res.OK, res.Counter = false, k+": not rejected, specification rejects"
+				}
+			}
+			for k := range got {
+				if !want[k] {
+					res.OK, res.Counter = false, k+": rejected, specification accepts"
+				}
+			}
+		}
 		key := f.Name + "/reject-iff-too-long"
 		switch {
 		case res.Undec != "":
@@ -229,6 +261,27 @@ func ComparePredAssumingNil(b *ssa.BasicBlock, domain map[string][]int64, errCal
 		}
 	}
 	return ComparePred(b, domain, assume, spec)
+}
+
+func comparePredSetAssumingNil(b *ssa.BasicBlock, domain map[string][]int64, errCalls []string) PredSet {
+	dnf, _ := PathConds(b)
+	var assume []string
+	seen := map[string]bool{}
+	for _, conj := range dnf {
+		for _, l := range conj {
+			pos := NormAtom(l.Cond, true)
+			for _, pat := range errCalls {
+				if matchStr(pos, pat) && strings.HasSuffix(pos, "= nil") {
+					a := strings.Replace(pos, " != nil", " == nil", 1)
+					if !seen[a] {
+						seen[a] = true
+						assume = append(assume, a)
+					}
+				}
+			}
+		}
+	}
+	return ComparePredSet(b, domain, assume)
 }
 
 // c16PipeErrors: C16.4 — a receive/send error closes only that pipe; C16.2 peer-keyed
